@@ -131,3 +131,8 @@ Proof.
   { destruct (Z.ltb_spec k 0); [rewrite nthZ_neg in Hk by lia; discriminate|lia]. }
   exists (k + 1). rewrite nthZ_shift by lia. exact Hk.
 Qed.
+
+Lemma Forall2_app_r {A B} (Rel : A -> B -> Prop) l1 l2 x y : Forall2 Rel l1 l2 -> Rel x y -> Forall2 Rel (l1 ++ [x]) (l2 ++ [y]).
+Proof. induction 1; cbn; [intros; repeat constructor; auto|intros; constructor; auto]. Qed.
+Lemma Forall2_rev' {A B} (Rel : A -> B -> Prop) l1 l2 : Forall2 Rel l1 l2 -> Forall2 Rel (rev l1) (rev l2).
+Proof. induction 1; cbn [rev]; [constructor|apply Forall2_app_r; auto]. Qed.
